@@ -174,6 +174,10 @@ def along_dim(t, dim, f):
 def f_softmax(x, dim=None, **kw):
     if dim is None:
         dim = 0 if len(x.shape) in (0, 1, 3) else 1
+    if len(x.shape) == 0:
+        if dim not in (0, -1):
+            raise IndexError('Dimension out of range')
+        return Tensor((), softmax_vec(list(x.els)))          # torch: softmax of a 0-d tensor along dim 0 is 1
     return along_dim(x, dim, softmax_vec)
 
 
@@ -1209,6 +1213,8 @@ def install(interp):
             t = t.float()
         elif dtype is None and t.els and all(isinstance(e, float) or (is_sym(e) and z3.is_real(e)) for e in t.els):
             pass
+        elif isinstance(dtype, str) and dtype.startswith('dtype.') and 'int' in dtype:
+            t = t._as_dtype(dtype[6:])
         t.requires_grad = bool(requires_grad)
         return t
 
